@@ -132,7 +132,12 @@ func genParamCarrier(r *rng, mask int) spec.Parameter {
 	p := spec.Parameter{}
 	p.CommonValidations = genCommon(r, mask)
 	p.Name = r.pick([]string{"p", "", "q"})
-	p.In = r.pick([]string{"query", "header", "path"})
+	p.In = r.pick([]string{"query", "header", "path", "formData", "body"})
+	if p.In == "body" && r.chance(2, 3) {
+		// a body parameter carries its validations in its schema: the parameter's own set is a separate thing
+		sch := genSchemaCarrier(r, mask)
+		p.Schema = &sch
+	}
 	if r.chance(1, 2) {
 		p.Type = "string"
 		p.Format = "date"
@@ -474,12 +479,13 @@ func checkValsOne(in valsInput) (string, interface{}) {
 	cw := w.CommonValidations
 	p := genParamCarrier(r, in.Mask&0xfff)
 	pb := p
+	pbView := jsonOf(mv(pb)) // taken before the write: the carrier may hold pointers (a body parameter's schema)
 	p.WithValidations(cw)
 	if jsonOf(mv(p.CommonValidations)) != jsonOf(mv(cw)) {
 		return "parameter: written validations not readable back", []interface{}{mv(pb), mv(cw)}
 	}
 	p.CommonValidations = pb.CommonValidations
-	if jsonOf(mv(p)) != jsonOf(mv(pb)) {
+	if jsonOf(mv(p)) != pbView {
 		return "parameter: WithValidations changed another field", []interface{}{mv(pb), mv(cw)}
 	}
 	h := genHeaderCarrier(r, in.Mask&0xfff)
